@@ -9,6 +9,8 @@ package mcp
 import (
 	"encoding/json"
 	"fmt"
+	"math"
+	"strconv"
 
 	"trpc.group/trpc-go/trpc-mcp-go/internal/errors"
 )
@@ -65,6 +67,17 @@ type JSONRPCError struct {
 type JSONRPCNotification struct {
 	JSONRPC string `json:"jsonrpc"`
 	Notification
+}
+
+// requestIDKey renders a JSON-RPC id for matching a response to its request.
+// An integer id is rendered the same way whether it is held as an integer or as
+// the float64 encoding/json decodes it into (%v prints 1000000 for the former
+// and 1e+06 for the latter).
+func requestIDKey(id interface{}) string {
+	if f, ok := id.(float64); ok && f == math.Trunc(f) && math.Abs(f) < 1<<63 {
+		return strconv.FormatInt(int64(f), 10)
+	}
+	return fmt.Sprintf("%v", id)
 }
 
 // newJSONRPCRequest creates a new JSON-RPC request
